@@ -180,7 +180,10 @@ pub fn scenario_inject(id: u64, seed: u64, _thorough: bool) -> Vec<Value> {
     let d = s.spawn(0);
     s.monitor(d);
     s.kick(d);
-    let inst = *r.pick(&["Mine", "Mine (2)", "Dot.ted", "x (9)"]);
+    // every third of these scenarios is directed at the deferral after a lost tiebreak: a losing competing probe while our
+    // own probing is under way (the monitor then holds the next probe to the one-second wait: C08.backoff)
+    let directed = id % 6 == 1;
+    let inst = if directed { *r.pick(&["Mine", "Mine (2)", "x (9)"]) } else { *r.pick(&["Mine", "Mine (2)", "Dot.ted", "x (9)"]) };
     let host = *r.pick(&["myhost.local.", "myhost-2.local.", "box-9.local."]);
     let sv = Svc { ty: "_http._tcp.local.".into(), inst: inst.into(), host: host.into(),
         addrs: if dual { vec![v4(192, 168, 1, 10), v6k(0)] } else { vec![v4(192, 168, 1, 10)] }, port: 8000,
@@ -196,9 +199,14 @@ pub fn scenario_inject(id: u64, seed: u64, _thorough: bool) -> Vec<Value> {
     let hostn = Name::from_escaped(host);
     let src = sock4(192, 168, 1, 66, 5353);
     // when: before the first probe, between probes, after the third, after the announcement
-    let when = match r.below(6) { 0 => r.below(250), 1 => r.range(250, 500), 2 => r.range(500, 750), 3 => r.range(750, 1000), 4 => r.range(1000, 1300), _ => r.range(1300, 3000) };
+    let mut when = match r.below(6) { 0 => r.below(250), 1 => r.range(250, 500), 2 => r.range(500, 750), 3 => r.range(750, 1000), 4 => r.range(1000, 1300), _ => r.range(1300, 3000) };
+    let mut what = r.below(5);
+    if directed {
+        when = r.range(130, 760);
+        what = 2;
+    }
     s.run_until(when);
-    match r.below(5) {
+    match what {
         0 | 1 => {
             // conflicting response: same name, different rdata (instance and/or host)
             let mut an = vec![];
@@ -213,14 +221,16 @@ pub fn scenario_inject(id: u64, seed: u64, _thorough: bool) -> Vec<Value> {
         }
         2 | 3 => {
             // competing probe whose data is lexicographically later (we lose) or earlier (we win)
-            let lose = r.chance(2, 3);
+            let lose = directed || r.chance(2, 3);
             let mut q = wire::query(vec![(full.clone(), wire::T_ANY), (hostn.clone(), wire::T_ANY)]);
             q.authorities = vec![
                 RR::new(full.clone(), false, 120, RData::Srv { prio: 0, weight: 0, port: if lose { 9000 } else { 1 }, target: hostn.clone() }),
                 RR::new(full.clone(), false, 4500, RData::Txt(vec![0])),
                 RR::new(hostn.clone(), false, 120, RData::A(if lose { [192, 168, 1, 250] } else { [1, 1, 1, 1] })),
             ];
-            s.deliver(d, 2, src, &q, true);
+            // (the datagram's origin tells the monitor which way the comparison must go: the data above is chosen for it)
+            let bytes = wire::build(&q, true);
+            s.deliver_raw(d, 2, true, src, bytes, Some(q.clone()), if lose { "tiebreak-lose" } else { "tiebreak-win" });
         }
         _ => {
             // a response with the SAME data (our own announcement echoed / another interface): no conflict
